@@ -1278,7 +1278,7 @@ def run(ctx: Ctx):
             # Coq spec check on the implementation's output (independent of the model)
             obs = knap_obs_q(out)
             exact_vals = values_exact(c["values"])      # else the objective is a rounded float sum
-            if obs is not None and exact_vals:
+            if obs is not None and exact_vals and len(c["values"]) <= 12000:      # longer literals exhaust coqc's memory cap
                 ks_cases.append(f"({knap_in_q(c)}, {obs})")
                 ks_meta.append((c, out))
             # correspondence with the rational model
